@@ -11,6 +11,7 @@ MODULES = {
     "C06": "harness.c06_hpmut",
     "C05": "harness.c05_tournament",
     "C04": "harness.c04_preserve",
+    "C03": "harness.c03_arch",
 }
 
 TECH = "symbolic execution of the real Python functions on z3-backed proxies (re-execution path exploration); each obligation decided per path by z3 as pc ∧ assumptions ∧ ¬obligation; sat models replayed on the real code"
@@ -35,6 +36,11 @@ CLAIMED = {
     "C18": {
         "level_text": "bounded symbolic verification of the real RainbowDQN._dqn_loss and learn on a real agent with stub networks: for all rewards (inside, outside and exactly on atoms), done flags, gamma in [0,1], actions taken, online q-values (ties included), target probabilities >= 0 and online log-probabilities at atoms<=5(9), batch<=2, actions<=2(3), symmetric and asymmetric supports with exactly representable delta_z: the projection recovered from the returned loss has the mass of the target distribution of a greedy next action and the mean of its clipped Bellman image, is non-negative, the per-sample loss is the cross-entropy with the online log-distribution of the action taken; learn() combines 1-step and n-step (gamma^n) losses, returns loss+prior_eps as priorities, passes indices through and steps optimiser and soft update once",
         "level_note": NOTE + "; support grids are chosen with exactly representable delta_z (float rounding of b=(Tz-v_min)/delta_z is outside the claim)",
+        "technique": TECH,
+    },
+    "C03": {
+        "level_text": "bounded symbolic verification of every @mutation method of EvolvableMLP (add/remove layer, add/remove node), EvolvableCNN (add/remove layer, change_kernel, add/remove channel, with MutableKernelSizes and calc_max_kernel_sizes) and EvolvableNetwork.add/remove_latent_node, run through the real _mutation_wrapper/MutationContext of a real module whose architecture attributes are proxies: ONE mutation from an ARBITRARY architecture inside its declared bounds (hence chains of any length), for all widths/channels/kernels, declared min/max, input H,W in [4,128], arguments and random draws at <=2(3) layers, strides in {1,2}: post-state inside [min,max]; a change landing strictly inside its bound is applied exactly and nothing else moves; blocked layer mutations run the advertised fallback and last_mutation_attr names the method applied; recreate_network runs exactly once; after CNN mutations the conv-size recurrence stays valid (the network can be rebuilt); on replayed/validation models the real recreate_network runs and a real forward pass returns finite outputs of the declared shape",
+        "level_note": NOTE + "; LSTM, SimBa, ResNet, multi-input, Conv3d, GPT/BERT and the finite-output claim for symbolic sizes are outside (real layers need concrete sizes)",
         "technique": TECH,
     },
     "C04": {
@@ -73,4 +79,4 @@ NOT_APPLICABLE = {
 
 # designed in DESIGN.md §5 but the check is not built/registered yet (moves to CLAIMED when it lands)
 PENDING = {pid: "solver-based check designed (DESIGN.md §5) but not yet built in this tree; not claimed until it is"
-           for pid in ["C03", "C12", "C13", "C14", "C15", "C16", "C19"]}
+           for pid in ["C12", "C13", "C14", "C15", "C16", "C19"]}
